@@ -140,8 +140,8 @@ Section Spec.
        then (special c = true \/ exists k, r = skipn k ackd) /\ (special c = false -> maxFiles c = 0%N -> r = ackd)
        else (forall x, In x r -> x = 0%N \/ (1 <= x / 10000 /\ x / 10000 <= writers)%N) /\
             writers_spec false r 0 counts /\ (maxFiles c = 0%N -> writers_spec true r 0 counts)) /\
-    (* C15: configured mode on every file of the sink *)
-    (forall f, In f (o_files ob) -> fo_mode f = eff_mode c) /\
+    (* C15: configured mode on every file of the sink (until somebody interferes from outside: a chmod may linger) *)
+    (removed = false -> forall f, In f (o_files ob) -> fo_mode f = eff_mode c) /\
     (* C15: a directory the sink made (or re-made) is 0700 *)
     (match dm0, dirgone with Some _, false => True | _, _ => o_dir ob = 0%N \/ o_dir ob = dirMode end) /\
     (* C15: the name of the active file *)
@@ -204,9 +204,10 @@ Section Spec.
           - apply orb_true_iff. destruct H as [->|[A B]]; [left; reflexivity|right]. apply andb_true_intro. split; apply N.leb_le; assumption. }
         rewrite Ek. tauto. }
     (* 3 modes *)
-    assert (H3 : (if forallb (fun f => N.eqb (fo_mode f) (eff_mode c)) (o_files ob) then [] else [KModeSpec]) = [] <->
-                 (forall f, In f (o_files ob) -> fo_mode f = eff_mode c)).
-    { rewrite ite_nil_t, forallb_forall. split; intros H f Hf; [apply N.eqb_eq|apply N.eqb_eq]; auto. }
+    assert (H3 : (if removed || forallb (fun f => N.eqb (fo_mode f) (eff_mode c)) (o_files ob) then [] else [KModeSpec]) = [] <->
+                 (removed = false -> forall f, In f (o_files ob) -> fo_mode f = eff_mode c)).
+    { rewrite ite_nil_t. destruct removed; cbn [orb]; [split; [discriminate|reflexivity]|].
+      rewrite forallb_forall. split; [intros H _ f Hf; apply N.eqb_eq; auto|intros H f Hf; apply N.eqb_eq; auto]. }
     (* 4 directory *)
     assert (H4 : (match dm0, dirgone with Some _, false => [] | _, _ => if N.eqb (o_dir ob) 0 || N.eqb (o_dir ob) dirMode then [] else [KDirSpec] end) = [] <->
                  (match dm0, dirgone with Some _, false => True | _, _ => o_dir ob = 0%N \/ o_dir ob = dirMode end)).
@@ -243,7 +244,7 @@ End Spec.
 Definition ackd_next (E : list N) (o : op) (ok : bool) (ackd : list N) : list N :=     (* empty events are not expected in the files *)
   match o with Write id _ _ _ _ _ _ _ => if ok && negb (memN id E) then ackd ++ [id] else ackd | _ => ackd end.
 Definition nren_next (x : xop) (nren : N) : N := match x with XOp (ExtRename _) => N.succ nren | _ => nren end.
-Definition removed_next (x : xop) (removed : bool) : bool := match x with XOp _ | XUnformatted _ => removed | _ => true end.
+Definition removed_next (x : xop) (removed : bool) : bool := match x with XOp _ | XUnformatted _ | XNewSink _ => removed | _ => true end.
 Definition dirgone_next (x : xop) (dirgone : bool) : bool := match x with XRmDir _ => true | _ => dirgone end.
 
 Section Case.
